@@ -9,7 +9,7 @@ Model = the code after the `fix:` commits (explicit `pending` flag in `ValueBack
 skipped, responses for removed remotes discarded).
 -/
 import SwimVerif.Proofs.NoFab
-import SwimVerif.Proofs.LinkLangDone
+import SwimVerif.Proofs.LinkLangStop
 
 set_option linter.unusedVariables false
 namespace SwimVerif.WT
@@ -183,6 +183,60 @@ example : wellFormed {} [] [.lane 0 true, .lane 1 false, .lane 2 false, .attach 
     .event 0 (some 0) (.synced .value), .unknown 1 7, .done 0 true, .done 0 true, .done 1 true, .done 0 true,
     .event 2 (some 1) (.map (.upd 1 [3])), .laneFailed 0, .done 1 true, .done 1 false, .stop, .done 0 true] = true := by
   decide
+
+/-! ### T2 statements over the whole write task (reachable states of well-formed runs)
+
+`pend reg up inflight n` (`Proofs/LinkLangRemote.lean`) = the notes already owed to a remote for lane name `n`:
+those of the write in flight followed by those of the special queue, in sending order. -/
+
+/-- **Unknown lane ⇒ exactly one `unlinked @laneNotFound`**: in every reachable state, an unknown-lane request
+of an attached remote schedules exactly the write `name : [unlinked @laneNotFound]` if the remote's writer is
+idle, and otherwise appends exactly one `laneNotFound name` to its special queue (sent as that one frame when it
+is popped: `C04_specials_preempt`, `C04_lane_not_found_frame`); the remote's buffers and write queue are
+untouched. -/
+theorem C04_unknown_lane_one_unlinked (evs : List Ev) (hw : wellFormed {} [] evs = true)
+    (hf : lanesFresh {} evs = true) (r name : Nat) (rem : Remote) (hg : (run {} evs).remote? r = some rem) :
+    ∃ rem', (step (run {} evs) (.unknown r name)).1.remote? r = some rem' ∧
+      rem'.up.value = rem.up.value ∧ rem'.up.supply = rem.up.supply ∧ rem'.up.map = rem.up.map ∧
+      rem'.up.writeQueue = rem.up.writeQueue ∧
+      ((rem.inflight = none ∧ rem'.inflight = some ⟨some name, [Note.unlinked .notFound], none⟩ ∧
+          rem.up.specialQueue = [] ∧ rem'.up.specialQueue = []) ∨
+       (rem.inflight ≠ none ∧ rem'.inflight = rem.inflight ∧
+          rem'.up.specialQueue = rem.up.specialQueue ++ [.laneNotFound name])) := by
+  obtain ⟨st, seen, h⟩ := ginv_run evs {} [] [] ginv_init hw hf
+  exact unknown_lane_of_ginv h r name rem hg
+
+/-- … and when that write completes, exactly the one frame reaches the remote. -/
+theorem C04_lane_not_found_delivered (s : St) (r name : Nat) (rem : Remote) (hg : s.remote? r = some rem)
+    (hi : rem.inflight = some ⟨some name, [Note.unlinked .notFound], none⟩) :
+    (step s (.done r true)).2.frames = [(some name, Note.unlinked .notFound)] := by
+  simp [step, hg, hi]
+
+/-- **Stop closes all**: in every reachable state, after `unlink_all` no (remote, lane) is linked any more, and
+for every attached remote and every registered lane what is owed on the lane's name has grown by exactly one
+`unlinked` if the remote was linked to the lane — and is unchanged if it was not. (That everything owed is then
+sent and accepted by the checker is `C04_link_language_partial`.) -/
+theorem C04_stop_closes_all (evs : List Ev) (hw : wellFormed {} [] evs = true) (hf : lanesFresh {} evs = true) :
+    (∀ r l, (step (run {} evs) .stop).1.links.isLinked r l = false) ∧
+    (∀ r rem, (run {} evs).remote? r = some rem →
+      ∃ rem', (step (run {} evs) .stop).1.remote? r = some rem' ∧
+        ∀ l n, (run {} evs).reg.nameFor l = some n →
+          pend (run {} evs).reg rem'.up rem'.inflight n =
+            pend (run {} evs).reg rem.up rem.inflight n ++
+              (if (run {} evs).links.isLinked r l = true then [Note.unlinked .none] else [])) := by
+  obtain ⟨st, seen, h⟩ := ginv_run evs {} [] [] ginv_init hw hf
+  exact stop_closes_all_of_ginv h
+
+/-- Non-vacuity: remote 0 linked to lanes 0 and 1 (a `linked` still in flight), remote 1 to lane 1 only; after
+stop remote 0 is owed `linked, unlinked` on lane 0 and both are owed one `unlinked` on lane 1. -/
+example : let s := (step (run {} [.lane 0 false, .lane 1 false, .attach 0, .attach 1, .link 0 0, .link 0 1, .link 1 1,
+      .done 1 true]) .stop).1
+    ((s.remote? 0).map (fun rem => (pend s.reg rem.up rem.inflight 0, pend s.reg rem.up rem.inflight 1)),
+     (s.remote? 1).map (fun rem => (pend s.reg rem.up rem.inflight 0, pend s.reg rem.up rem.inflight 1))) =
+    (some ([.linked, .unlinked .none], [.linked, .unlinked .none]), some ([], [.unlinked .none])) := by
+  decide
+example : ((step (run {} [.lane 0 false, .attach 0, .link 0 0]) (.unknown 0 9)).1.remote? 0).map
+    (fun rem => rem.up.specialQueue) = some [.laneNotFound 9] := by decide
 
 /-! Non-vacuity -/
 example : (ureach [0] [.push 0 (.value [1]), .push 0 (.value [2]), .done]).inflight.isSome = true := by decide
